@@ -385,6 +385,8 @@ def run(ctx):
         'operand stack restored on dispatch/resume',
         'reserved handler operands agree across generator, assembler, CPU',
         'Trapped cannot escape tick (shared with C07)',
+        'block start/end records used to find statement boundaries span '
+        'the right instructions (shared with C11)',
     ]
     ctx.not_decided = ['statement-granular resumption for concrete '
                        'programs (depends on the debug map at run time); '
@@ -399,6 +401,9 @@ def run(ctx):
     saved = ctx.pid
     sub = _Rename(ctx, 'C07.', 'C10.')
     c07.tick_boundary(sub, cg)
+    # RESUME finds statement boundaries in the debug map
+    from .. import dbgrecords
+    dbgrecords.check(ctx, 'C10')
     return ('Structural necessary conditions of ON ERROR/RESUME: CFG '
             'dominance of the trapped_addr assignment before each _trap '
             'call of tick(); path conditions of the dispatch statements in '
